@@ -359,6 +359,13 @@ async def serve_conn(loop, conn, log, *, addr, is_proxy, tls, idle=25.0, connect
     """Entry point for a freshly accepted upstream connection."""
     base = ConnStream(loop, conn)
     stream = base
+    if tls and not is_proxy:
+        # an origin on a "TLS port" that is spoken to in plain HTTP (http://host:443/) answers in plain HTTP
+        while not base.buf and not base.eof:
+            if not await base.more(idle):
+                break
+        if base.buf and base.buf[0] != 0x16:
+            tls = False
     if tls:
         stream = TlsStream(loop, base, server_context(), server_side=True)
         if not await stream.handshake(idle):
